@@ -1,0 +1,49 @@
+//! Verification hook H4 (only compiled with `--cfg redb_verif`): named pause points.
+//!
+//! `pause(name)` is called between the lock-protected sections of the transaction machinery
+//! (points `T.*` precede a section under the transaction tracker's state mutex, `M.*` a section
+//! under the in-memory header state mutex, `U.*` a section under the unpersisted-state mutex,
+//! `X.*` are markers at API level). It does nothing -- one relaxed atomic load -- unless a
+//! controller has been installed with `set_pause_controller`, in which case the controller's
+//! `at` method runs on the calling thread and may block it, letting a test harness force a
+//! chosen interleaving. Points whose name ends in `!` are reached with a tracker or state
+//! mutex held: a controller may record them but must not block there.
+//!
+//! Nothing in here changes the behaviour of the crate.
+
+use std::sync::atomic::{AtomicBool, Ordering};
+use std::sync::{Arc, RwLock};
+
+pub trait PauseController: Send + Sync {
+    fn at(&self, point: &'static str);
+}
+
+static ACTIVE: AtomicBool = AtomicBool::new(false);
+static CONTROLLER: RwLock<Option<Arc<dyn PauseController>>> = RwLock::new(None);
+
+/// Install (or, with `None`, remove) the process-wide pause controller
+pub fn set_pause_controller(controller: Option<Arc<dyn PauseController>>) {
+    let mut slot = CONTROLLER
+        .write()
+        .unwrap_or_else(std::sync::PoisonError::into_inner);
+    ACTIVE.store(controller.is_some(), Ordering::SeqCst);
+    *slot = controller;
+}
+
+#[inline]
+pub(crate) fn pause(point: &'static str) {
+    if ACTIVE.load(Ordering::Relaxed) {
+        pause_slow(point);
+    }
+}
+
+#[cold]
+fn pause_slow(point: &'static str) {
+    let controller = CONTROLLER
+        .read()
+        .unwrap_or_else(std::sync::PoisonError::into_inner)
+        .clone();
+    if let Some(controller) = controller {
+        controller.at(point);
+    }
+}
